@@ -50,7 +50,7 @@ def senderConfined : Bool := sites_sender.all fun s => senderCls s && !s.mutatin
 
 def daemonGuarded : Bool := sites_rsyncd.all fun s => s.writableChecked ||
   -- the check that an upload's subdirectory lies below the module (D43): two `Stat`s, nothing is changed
-  (s.fn == .subdirInModule && !s.mutating)
+  ((s.fn == .subdirInModule || s.fn == .reopenByPath) && !s.mutating)
 
 /-- raw paths in the daemon: only the configured module path itself (created / opened as the root) -/
 def daemonRawOnlyModuleRoot : Bool :=
@@ -59,7 +59,11 @@ def daemonRawOnlyModuleRoot : Bool :=
       (s.calleeId == callee_os_MkdirAll || s.calleeId == callee_os_OpenRoot)) ||
     -- `os.Stat(subReal)` in `subdirInModule`: the resolved path of the requested subdirectory is compared with the
     -- directory that was opened through the root (D43); read-only
-    (s.fn == .subdirInModule && s.calleeId == callee_os_Stat && !s.mutating)
+    (s.fn == .subdirInModule && s.calleeId == callee_os_Stat && !s.mutating) ||
+    -- `os.OpenRoot(subReal)` in `reopenByPath`: the directory that was opened through the module's root and verified to lie
+    -- below the module is opened once more by its resolved absolute path (so that the root's name is absolute) and
+    -- compared with the first one (D52); nothing is changed
+    (s.fn == .reopenByPath && s.calleeId == callee_os_OpenRoot && !s.mutating)
 
 /-- raw-path sites name exactly the configured paths: the module path (daemon), the walker's local
 directory (sender), nothing at all in the receiver; and in `handleConnReceiver` the destination path is
@@ -67,7 +71,7 @@ the module path from the `Transfer` literal until the root has been opened -/
 def rawArgsPinned : Bool :=
   rawArgs_receiver == [] &&
   rawArgs_sender == [("os.OpenRoot", "s.localDir")] &&
-  rawArgs_rsyncd == [("os.MkdirAll", "mod.Path"), ("os.Stat", "subReal"), ("os.MkdirAll", "rt.Dest"), ("os.OpenRoot", "rt.Dest")] &&
+  rawArgs_rsyncd == [("os.MkdirAll", "mod.Path"), ("os.Stat", "subReal"), ("os.OpenRoot", "subReal"), ("os.MkdirAll", "rt.Dest"), ("os.OpenRoot", "rt.Dest")] &&
   destEvents_rsyncd.take 3 == ["Dest: module.Path", "os.MkdirAll(rt.Dest)", "os.OpenRoot(rt.Dest)"] &&
   (destEvents_rsyncd.drop 3).all (fun e => e.startsWith "rt.Dest = ")
 
